@@ -542,3 +542,40 @@ Theorem C07_lock_discipline_leak_blocks :
   forall l held q, holds l held = true -> path_ok held (Acq l :: q) = false.
 Proof. exact leaked_lock_blocks. Qed.
 Print Assumptions C07_lock_discipline_leak_blocks.
+
+(* ---- one L2TP datagram from the wire to its handler (internal/l2tp Dispatch, dispatchSCCRQ, HandleSCCRQ's AVP extraction,
+   pkg/l2tp FindFirst / DecodeUint16 / DecodeMessageType, then the PPP path): end-to-end, for every byte string ---- *)
+Theorem C07_l2tp_datagram_total : forall auth b, is_crash (l2tp_dispatch auth b) = false.
+Proof. exact l2tp_dispatch_total. Qed.
+Print Assumptions C07_l2tp_datagram_total.
+(* DecodeUint16 slices a.Value[:2] ("caller must have validated"): safe exactly under the guard every caller applies ... *)
+Theorem C07_l2tp_decode_u16_guarded : forall a, 2 <= lenN (a_value a) -> is_crash (decode_u16 a) = false.
+Proof. exact decode_u16_guarded. Qed.
+Print Assumptions C07_l2tp_decode_u16_guarded.
+(* ... and not without it: the guard in the callers is what the totality of the handlers rests on *)
+Theorem C07_l2tp_decode_u16_needs_guard : exists a, decode_u16 a = Panic.
+Proof. exact decode_u16_unguarded_panics. Qed.
+Print Assumptions C07_l2tp_decode_u16_needs_guard.
+Theorem C07_l2tp_sccrq_extract_total : forall l, is_crash (sccrq_extract l) = false.
+Proof. exact sccrq_extract_total. Qed.
+Print Assumptions C07_l2tp_sccrq_extract_total.
+Theorem C07_l2tp_peer_rws_total : forall l, is_crash (peer_rws l) = false.
+Proof. exact peer_rws_total. Qed.
+Print Assumptions C07_l2tp_peer_rws_total.
+(* an SCCRQ as BuildSCCRQ lays it out (Message Type, Host Name, Assigned Tunnel ID, then any other AVPs that are not a second
+   Host Name / Assigned Tunnel ID / a Challenge) parses to the same AVPs, the handler extracts the tunnel id it was built with,
+   and the resolver sees the host name it was built with *)
+Theorem C07_l2tp_sccrq_roundtrip :
+  forall host tid extra, tid < 65536 -> lenN host <=? 1017 = true -> wf_avps extra = true ->
+  forallb (fun a => negb ((a_vendor a =? 0) && ((a_type a =? 7) || (a_type a =? 9) || (a_type a =? 11)))) extra = true ->
+  parse_avps (build_avps (sccrq_avps host tid extra)) = Ok (sccrq_avps host tid extra) /\
+  sccrq_extract (sccrq_avps host tid extra) = Ok (Some tid) /\
+  option_map a_value (find_first 0 7 (sccrq_avps host tid extra)) = Some host.
+Proof. exact sccrq_roundtrip. Qed.
+Print Assumptions C07_l2tp_sccrq_roundtrip.
+Example C07_l2tp_sccrq_roundtrip_nonvacuous :
+  wf_avps [mkAvp true false 0 2 [1; 0]; mkAvp true false 0 10 (put16 8)] = true /\
+  lenN (build_avps (sccrq_avps [108; 97; 99; 49] 4242 [mkAvp true false 0 2 [1; 0]; mkAvp true false 0 10 (put16 8)])) = 42 /\
+  peer_rws (sccrq_avps [108; 97; 99; 49] 4242 [mkAvp true false 0 2 [1; 0]; mkAvp true false 0 10 (put16 8)]) = Ok 8.
+Proof. exact sccrq_roundtrip_nonvacuous. Qed.
+Print Assumptions C07_l2tp_sccrq_roundtrip_nonvacuous.
